@@ -62,6 +62,9 @@ def predict(scopes, M):
             for n in names:
                 if M[n]["c"] in STD_TYPEDEFS:
                     R.append({"reason": "cpp-std-typedef-shadow", "ident": M[n]["c"], "names": [n], "scope": s["owner"]})
+        if kind == "params" and "self" in names:
+            # (the receiver of a method was already removed by the scope extraction: this is a declared parameter)
+            R.append({"reason": "cpp-param-named-self", "ident": "this", "names": ["self"], "scope": s["owner"]})
         if kind == "params":
             for n in names:
                 if M[n].get("ctemp") == "1":
@@ -79,6 +82,37 @@ def mentions(diag, ident):
     pat = re.compile(r"(?<![A-Za-z0-9_])" + re.escape(ident) + r"(?![A-Za-z0-9_])")
     return any(ident == i or pat.search(i) for i in diag["idents"]) or bool(pat.search(diag.get("span_text", ""))) or bool(pat.search(diag["message"]))
 
+def qualify_reasons(meta):
+    """Namespace-qualification hazards of a multi-package world (identgen.multi_pkg_world), by the rule the generator's
+    `qualify` follows: a reference from namespace path `cur` to `target` is spelled `target[same:]` (same = common prefix),
+    with a leading `::` only if same == 0 and (target[0] occurs in cur, or cur starts with `exports`).  C++ looks the first
+    spelled component X up from the innermost enclosing namespace outwards, so the spelling is wrong whenever an enclosing
+    namespace cur[:k] with k > same has a member named X (a declared namespace path with prefix cur[:k] + [X])."""
+    if "names" not in meta: return []
+    snake = lambda n: n.replace("-", "_")
+    A, B, C, C2, D, E, F, G, H, I = [snake(x) for x in meta["names"]]
+    decl = [[A, B, C], [D, E, F]]
+    decl.append((["exports"] if meta["export"] else []) + [A, B, C2])
+    if meta.get("sibling"): decl.append([A, B, snake(meta["sibling"])])
+    if meta["deep"]: decl.append([G, H, I])
+    refs = [([A, B, C], [D, E, F]), (decl[2], [D, E, F])]
+    # `rec` has a field of type G:H/I.t3: lifting / lowering code of the user's functions names it too
+    if meta["deep"]: refs += [([D, E, F], [G, H, I]), ([A, B, C], [G, H, I]), (decl[2], [G, H, I])]
+    R = []
+    for cur, target in refs:
+        same = 0
+        for a, b in zip(cur, target):
+            if a != b: break
+            same += 1
+        if same == 0 and (target[0] in cur or cur[0] == "exports"): continue          # root-qualified
+        X = target[same]
+        for k in range(same + 1, len(cur) + 1):
+            if any(p[:k + 1] == cur[:k] + [X] for p in decl):
+                R.append({"reason": "cpp-qualify-enclosing-namespace-member", "ident": X, "names": ["::".join(cur), "::".join(target)],
+                          "scope": "::".join(cur[:k])})
+                break
+    return R
+
 def stem(msg):
     m = re.sub(r"[‘'`][^’'`]*[’']", "_", msg)
     m = re.sub(r"\d+", "N", m)
@@ -90,7 +124,8 @@ def explain(diag, reasons):
     msg = diag["message"]
     for kind, pat in (("keyword", None),
                       ("dup", r"redeclar|redefin|conflicting|duplicate|ambiguous|overloaded|previous"),
-                      ("cpp-std-typedef-shadow", None), ("cpp-libc-macro-name", None), ("cpp-temp-clash", None)):
+                      ("cpp-std-typedef-shadow", None), ("cpp-libc-macro-name", None), ("cpp-temp-clash", None),
+                      ("cpp-qualify-enclosing-namespace-member", None), ("cpp-param-named-self", None)):
         for r in reasons:
             if kind == "keyword":
                 if "keyword" not in r["reason"]: continue
@@ -99,6 +134,7 @@ def explain(diag, reasons):
                 if not re.search(pat, msg): continue
             elif r["reason"] != kind: continue
             if mentions(diag, r["ident"]): return r
+            if kind == "dup" and any(r["ident"] in i for i in diag["idents"]): return r     # `kA1`, `…::A1`
     return None
 
 def systematic_worlds(rng, tier):
@@ -169,6 +205,12 @@ def run(c):
             jobs.append({"path": p, "opts": o, "meta": {}, "origin": "codegen:" + name})
     sysw = systematic_worlds(c.rng, c.tier)
     for wit, meta in sysw: jobs.append({"wit": wit, "opts": "-", "meta": meta, "origin": "systematic"})
+    for note, (wit, meta) in identgen.shadow_patterns():
+        jobs.append({"wit": wit, "opts": "-", "meta": dict(meta, note=note), "origin": "ns-patterns"})
+    n_multi = 40 if c.tier == "quick" else 800
+    for i in range(n_multi):
+        wit, meta = identgen.multi_pkg_world(c.rng)
+        jobs.append({"wit": wit, "opts": c.rng.choice(OPTS), "meta": meta, "origin": "multi-package"})
     n_seeded = 40 if c.tier == "quick" else 1500
     for i in range(n_seeded):
         wit, meta = identgen.gen_world(c.rng, "cpp")
@@ -208,7 +250,7 @@ def run(c):
         origin = j["origin"].split(":")[0]
         if sc is None: hist[f"{origin}:unparsable"] += 1; continue
         if "wit" in j and not j.get("valid"): hist[f"{origin}:outside-domain(invalid component WIT)"] += 1; continue
-        reasons = predict(sc, M)
+        reasons = predict(sc, M) + qualify_reasons(j["meta"])
         real = [r for r in reasons if r["reason"] != "case-only-collision"]
         req = json.dumps({"origin": j["origin"], "opts": j["opts"], "src": j.get("wit") or j.get("path")}, sort_keys=True)
         adv = j["meta"].get("adversarial", [])
@@ -247,7 +289,8 @@ def run(c):
     c.cov["worlds"] = dict(sorted(hist.items()))
     c.cov["corpus_skipped"] = dict(skipped)
     c.cov["phase_seconds"] = phases
-    c.cov["jobs"] = {"total": len(jobs), "codegen_corpus_entries": len(codegen), "systematic": len(sysw), "seeded": n_seeded}
+    c.cov["jobs"] = {"total": len(jobs), "codegen_corpus_entries": len(codegen), "systematic": len(sysw), "seeded": n_seeded,
+                     "namespace_patterns": len(identgen.shadow_patterns()), "multi_package": n_multi}
     c.sample({"wit": jobs[-1].get("wit", "")[:600], "opts": jobs[-1]["opts"], "g++": res[-1][0]})
     c.cov["search"] = ("g++ 12 -std=c++23 -fsyntax-only on the real C++ generator's output for every world of this run; "
                        "IdentSpec.notKeyword (Lean spec table CppKeywords.keywords23) on the real to_c_ident outputs")
